@@ -252,5 +252,5 @@ def run_shard(spec) -> Acc:
 
 
 def plan(tier, seed):
-    n = 150 if tier == "quick" else 4000
+    n = 300 if tier == "quick" else 4000
     return [{"shard": i, "n": n} for i in range(16)]
